@@ -101,6 +101,11 @@ Definition chk_C04_step (before : list obs_alloc) (o : ostep) : bool :=
       | Some al => mset_eqb obs_alloc_eqb (others (oa_client al) before) (others (oa_client al) (os_allocs o))
       | None => mset_eqb obs_alloc_eqb before (os_allocs o)
       end
+  | ECtlClose src =>
+      (* a control connection ending touches its own 5-tuple's allocation only *)
+      forallb (fun a => is_life a) (os_acts o) &&
+      mset_eqb obs_alloc_eqb (others src before) (others src (os_allocs o))
+  | ESrvClose => forallb (fun a => is_life a) (os_acts o)
   end.
 Definition chk_C04 (c : rcase) : bool := all_steps chk_C04_step [] (rc_steps c).
 
@@ -185,7 +190,7 @@ Definition c06_update (t : Z) (o : ostep) (exp : list (addr * Z)) : list (addr *
                       | None => exp end
         | None => exp
         end
-    | ERelayErr _ => fold_right (fun c e => adel addr_eqb c e) exp (deleted_clients (os_acts o))
+    | ERelayErr _ | ECtlClose _ | ESrvClose => fold_right (fun c e => adel addr_eqb c e) exp (deleted_clients (os_acts o))
     | _ => exp
     end in
   filter (fun ce => t <? snd ce) exp1.
@@ -307,6 +312,14 @@ Definition chk_C08 (c : rcase) : bool := all_steps chk_C08_step [] (rc_steps c).
 Definition count_life (f : lifecycle -> bool) (acts : list action) : Z :=
   Z.of_nat (length (filter (fun a => match a with Life e => f e | _ => false end) acts)).
 
+(* a control connection that ends takes its allocation with it; once the server is closed nothing remains *)
+Definition ended_ok (e : event) (l : list obs_alloc) : bool :=
+  match e with
+  | ESrvClose => match l with [] => true | _ => false end
+  | ECtlClose src => negb (existsb (fun a => addr_eqb (oa_client a) src) l)
+  | _ => true
+  end.
+
 Fixpoint chk_C15_from (na np nc : Z) (steps : list ostep) : bool :=
   match steps with
   | [] => true
@@ -321,6 +334,7 @@ Fixpoint chk_C15_from (na np nc : Z) (steps : list ostep) : bool :=
       (na' =? Z.of_nat (length (os_allocs o))) &&
       (np' =? Z.of_nat (length (flat_map oa_perms (os_allocs o)))) &&
       (nc' =? Z.of_nat (length (flat_map oa_chans (os_allocs o)))) &&
+      ended_ok (os_ev o) (os_allocs o) &&
       chk_C15_from na' np' nc' r
   end.
 Definition chk_C15 (c : rcase) : bool := chk_C15_from 0 0 0 (rc_steps c).
